@@ -11,6 +11,7 @@ import Model.Hop
 import Model.Pool
 import Model.Parse
 import Model.Macat
+import Model.Opt
 import Generated.Facts
 import Driver.Machines
 open Model
@@ -104,6 +105,15 @@ def evalStateless (tag : String) (a : List String) : Option (String × String) :
     match n.toInt? with
     | some k => some (toString (Macat.bareSeconds k), "seconds")
     | none => none
+  | "opt.set", [kind, pkg, opt, ty, val] =>
+    -- kind: sock | ctx ; the option is given by its wire name
+    let chain := if kind == "ctx" then Opt.contextChain pkg
+      else if kind == "dialer" then [("internal/core", "dialer"), ("transport/" ++ pkg, "dialer"), ("transport/" ++ pkg, "options")]
+      else if kind == "listener" then [("transport/" ++ pkg, "listener"), ("transport/" ++ pkg, "options")]
+      else Opt.socketChain pkg
+    let r := Opt.resolve Generated.optTable chain (Opt.constOf Generated.optionNames opt) (Opt.parseVal ty val)
+    some (r, r)
+  | "ops.table", [proto, op] => let r := Opt.opsTable Generated.protoInfo proto op; some (r, op ++ "-" ++ r)
   | "pool.new", [sz] =>
     -- observed: "<len> <hlen> <cap>"; the model gives the admissible capacities (checkPool)
     if sz.isEmpty then none else none
